@@ -75,7 +75,56 @@ func (bs *filesystemPartStore) Start(ctx context.Context) error {
 	if err := bs.ValidatedLifecycle.Start(ctx); err != nil {
 		return err
 	}
-	return bs.ensureRootDir()
+	if err := bs.ensureRootDir(); err != nil {
+		return err
+	}
+	return bs.recoverInterruptedTransactions()
+}
+
+// recoverInterruptedTransactions undoes the file renames of transactions that
+// were cut off because the process died. DeletePart (and an overwriting
+// PutPart) move the live part file to "<part>.txbackup.<id>" in their
+// pre-commit action and only remove it after the database commit; the rename
+// is undone by a rollback action. If the process is killed in between, no
+// action runs: the database transaction is gone, its metadata still references
+// the part, but the file is only present under its backup name. Moving it back
+// restores the part. If the transaction had in fact committed, the restored
+// file is an unreferenced part that the garbage collector reclaims. Temporary
+// upload files that were never published are removed.
+func (bs *filesystemPartStore) recoverInterruptedTransactions() error {
+	dirEntries, err := os.ReadDir(bs.root)
+	if err != nil {
+		return err
+	}
+	for _, dirEntry := range dirEntries {
+		if dirEntry.IsDir() {
+			continue
+		}
+		name := dirEntry.Name()
+		if filepath.Ext(name) == ".tmp" && len(name) > 0 && name[0] == '.' {
+			if err := os.Remove(filepath.Join(bs.root, name)); err != nil && !errors.Is(err, fs.ErrNotExist) {
+				return err
+			}
+			continue
+		}
+		if len(name) <= 32 || name[32:min(len(name), 32+len(".txbackup."))] != ".txbackup." {
+			continue
+		}
+		if _, ok := bs.tryGetPartIdFromFilename(name[:32]); !ok {
+			continue
+		}
+		partFilename := filepath.Join(bs.root, name[:32])
+		if _, err := os.Stat(partFilename); err == nil {
+			// The part file exists: the backup is not the only copy. Leave it alone.
+			continue
+		} else if !errors.Is(err, fs.ErrNotExist) {
+			return err
+		}
+		if err := os.Rename(filepath.Join(bs.root, name), partFilename); err != nil && !errors.Is(err, fs.ErrNotExist) {
+			return err
+		}
+	}
+	return nil
 }
 
 func (bs *filesystemPartStore) PutPart(ctx context.Context, tx database.Tx, partId partstore.PartId, reader io.Reader) error {
